@@ -220,6 +220,13 @@ Definition is_hex (c : Z) : bool := ((48 <=? c) && (c <=? 57)) || ((97 <=? c) &&
 
 Definition max_int64 : Z := 9223372036854775807.
 
+(* the first n elements, n a Z (io.LimitReader; no unary numbers: n can be 2^63-1) *)
+Fixpoint takez (n : Z) (l : bytes) : bytes :=
+  match l with
+  | [] => []
+  | x :: r => if n <=? 0 then [] else x :: takez (n - 1) r
+  end.
+
 Section Download.
   Variable sha256hex : bytes -> bytes.            (* hex.EncodeToString(sha256(data)) *)
   Variable presign_ok : bool.                     (* PresignGetObject succeeded *)
@@ -231,7 +238,7 @@ Section Download.
     | GErr => DError 502 (codes "s3_get_failed")
     | GBody data rerr =>
       let limit := expected_size + 1 in                          (* io.LimitReader(obj.Body, size+1) *)
-      let buffered := firstn (Z.to_nat limit) data in
+      let buffered := takez limit data in
       (* the underlying reader is asked again (and fails) only if the limit was not reached *)
       if rerr && (zlen data <? limit) then DError 502 (codes "s3_get_failed")
       else if expected_size <? zlen buffered then DError 502 (codes "integrity_failure")
